@@ -39,7 +39,8 @@ theorem mapAll_step (w : W) (g : Conn → Conn) (hg : ∀ c, (g c).id = c.id)
     cases hw : w.users with
     | none => simp [hw] at h
     | some l => simp [hw] at h; exact ⟨l, rfl, by rw [← h]; simp⟩
-  refine ⟨⟨i.crashed, i.inError, i.inMeh, ?_, i.inj, ?_, ?_, ?_, ?_⟩, ?_, fun _ _ _ _ _ h => h, ?_, rfl, rfl⟩
+  refine ⟨⟨i.crashed, i.inError, i.inMeh, ?_, i.inj, ?_, ?_, ?_, ?_⟩, ?_, fun _ _ _ _ _ h => h, ?_, rfl, rfl,
+    TrExt.of_eq rfl⟩
   · intro o id ho
     rw [hf]
     have := i.live o id ho
@@ -69,10 +70,10 @@ theorem mapAll_step (w : W) (g : Conn → Conn) (hg : ∀ c, (g c).id = c.id)
 
 theorem applyAction_same (w : W) (a : Action) : Same w (applyAction w a).1 := by
   cases a with
-  | tick dt => exact ⟨rfl, rfl, rfl, rfl, rfl, rfl, rfl, rfl, rfl⟩
+  | tick dt => exact ⟨rfl, rfl, rfl, rfl, rfl, rfl, rfl, rfl, rfl, by trx⟩
   | conn c => exact Same.refl w
   | send c t => simp only [applyAction]; split <;> exact Same.refl w
-  | close c => simp only [applyAction]; split <;> exact ⟨rfl, rfl, rfl, rfl, rfl, rfl, rfl, rfl, rfl⟩
+  | close c => simp only [applyAction]; split <;> exact ⟨rfl, rfl, rfl, rfl, rfl, rfl, rfl, rfl, rfl, by trx⟩
   | cin t => simp only [applyAction]; split <;> exact Same.refl w
   | idle => exact Same.refl w
 
@@ -125,15 +126,25 @@ theorem Good.cstep {w w' : W} (g : Good w) (h : CStep w w') : Good w' := by
 theorem Good.recover {w : W} (g : Good w) : Good (recover w) :=
   ⟨g.inv.ctx_irrel 1, g.console, rfl⟩
 
+/-- good at the end, and the trace grew by a well-formed block -/
+def GT (w w' : W) : Prop := Good w' ∧ TrExt w w'
+
+theorem GT.refl {w : W} (g : Good w) : GT w w := ⟨g, TrExt.refl w⟩
+theorem GT.of_cstep {w w' : W} (g : Good w) (h : CStep w w') : GT w w' := ⟨g.cstep h, (h g.inv).2.tr⟩
+theorem GT.then {a b c : W} (h1 : GT a b) (h2 : CStep b c) : GT a c :=
+  ⟨h1.1.cstep h2, h1.2.trans (h2 h1.1.inv).2.tr⟩
+theorem GT.trans {a b c : W} (h1 : GT a b) (h2 : GT b c) : GT a c := ⟨h2.1, h1.2.trans h2.2⟩
+theorem GT.recover {a b : W} (h : GT a b) : GT a (recover b) := ⟨h.1.recover, h.2.trans (TrExt.of_eq rfl)⟩
+
 theorem cycleHead_good (n : Nat) (acts : List Action) (w : W) (g : Good w) :
-    Good (cycleHead n acts w).1 ∧ (∀ t, IoEv.console t ∈ (cycleHead n acts w).2 → w.mode = .console) ∧
+    GT w (cycleHead n acts w).1 ∧ (∀ t, IoEv.console t ∈ (cycleHead n acts w).2 → w.mode = .console) ∧
     (cycleHead n acts w).1.mode = w.mode := by
   unfold cycleHead
   have s1 := mapAll_step w (fun c => { c with turn := true }) (fun _ => rfl) (fun _ h => h)
   have s2 : Step w (emit { w with users := w.users.map (fun l => l.map (fun s => s.map
       (fun c => { c with turn := true }))) } (.cycle n)) := Step.trans s1 (emit_same _ _).step
   have s3 := Step.trans s2 (applyActions_same acts _).step
-  refine ⟨g.cstep s3.toC, ?_, ?_⟩
+  refine ⟨GT.of_cstep g s3.toC, ?_, ?_⟩
   · intro t ht
     have := applyActions_console acts _ t ht
     exact this
@@ -141,43 +152,46 @@ theorem cycleHead_good (n : Nat) (acts : List Action) (w : W) (g : Good w) :
 
 theorem cycleBody_good (S : Scripts) (rh : HookFn) (hrh : HookOK rh) (k : Nat) (w : W) (evs : List IoEv)
     (g : Good w) (hc : ∀ t, IoEv.console t ∈ evs → w.mode = .console) :
-    Good (cycleBody S rh k w evs).1 := by
+    GT w (cycleBody S rh k w evs).1 := by
   unfold cycleBody
-  have g1 : Good (if evs.isEmpty = true then (w, false) else processIo S rh w evs).1 := by
+  have g1 : GT w (if evs.isEmpty = true then (w, false) else processIo S rh w evs).1 := by
     split
-    · exact g
-    · exact g.cstep (processIo_cstep S rh hrh w evs (fun t ht => g.console (hc t ht)))
+    · exact GT.refl g
+    · exact GT.of_cstep g (processIo_cstep S rh hrh w evs (fun t ht => g.console (hc t ht)))
   revert g1
   generalize (if evs.isEmpty = true then (w, false) else processIo S rh w evs) = r1
   intro g1
   simp only []
   split
   · exact g1.recover
-  · have g2 : Good (commandLoop rh k r1.1).1 := g1.cstep (commandLoop_step rh hrh k r1.1).toC
+  · have g2 : GT w (commandLoop rh k r1.1).1 := g1.then (commandLoop_step rh hrh k r1.1).toC
     split
     · exact g2.recover
     · split
-      · have g3 : Good (callHeartBeat rh (commandLoop rh k r1.1).1).1 :=
-          g2.cstep (callHeartBeat_step rh hrh _).toC
+      · have g3 : GT w (callHeartBeat rh (commandLoop rh k r1.1).1).1 :=
+          g2.then (callHeartBeat_step rh hrh _).toC
         split
         · exact g3.recover
         · exact g3
       · exact g2
 
 theorem cycle_good (S : Scripts) (rh : HookFn) (hrh : HookOK rh) (n : Nat) (acts : List Action) (w : W)
-    (g : Good w) : Good (cycle S rh n acts w).1 := by
+    (g : Good w) : GT w (cycle S rh n acts w).1 := by
   unfold cycle
   split
-  · exact g
+  · exact GT.refl g
   · obtain ⟨g1, hc, hm⟩ := cycleHead_good n acts w g
-    exact cycleBody_good S rh hrh _ _ _ g1 (fun t ht => by rw [hm]; exact hc t ht)
+    exact g1.trans (cycleBody_good S rh hrh _ _ _ g1.1 (fun t ht => by rw [hm]; exact hc t ht))
 
 theorem runCycles_good (S : Scripts) (rh : HookFn) (hrh : HookOK rh) :
-    ∀ (h : List (List Action)) (n : Nat) (w : W), Good w → Good (runCycles S rh n h w) := by
+    ∀ (h : List (List Action)) (n : Nat) (w : W), Good w → GT w (runCycles S rh n h w) := by
   intro h
   induction h with
-  | nil => intro n w g; exact g
-  | cons a as ih => intro n w g; exact ih (n + 1) _ (cycle_good S rh hrh n a w g)
+  | nil => intro n w g; exact GT.refl g
+  | cons a as ih =>
+    intro n w g
+    have g1 := cycle_good S rh hrh n a w g
+    exact g1.trans (ih (n + 1) _ g1.1)
 
 /-- the idle driver: no connection at all (all_users == NULL), nothing in flight -/
 structure Fresh (w : W) : Prop where
@@ -212,7 +226,7 @@ theorem initConsoleUser_users (S : Scripts) (rh : HookFn) (hrh : HookOK rh) (w :
   · exact ((afterConnect_cstep S rh hrh _) i1).2.alloc hu
 
 theorem startup_good (S : Scripts) (rh : HookFn) (hrh : HookOK rh) (w : W) (f : Fresh w) :
-    Good (startup S rh w) := by
+    GT w (startup S rh w) := by
   unfold startup
   simp only []
   -- save_context; the initial tick
@@ -226,14 +240,16 @@ theorem startup_good (S : Scripts) (rh : HookFn) (hrh : HookOK rh) (w : W) (f : 
     | none => rfl
     | some l => rw [h] at this; simp at this
   have hm1 : (callHeartBeat rh { (emit w .start) with ctxDepth := 1 }).1.mode = w.mode := r1.mode
+  have t1 : TrExt w (callHeartBeat rh { (emit w .start) with ctxDepth := 1 }).1 :=
+    TrExt.trans (TrExt.one (e := .start) rfl rfl) r1.tr
   -- whether or not the initial tick left through the recovery point
   have g2 : ∀ v : W, (v = recover (callHeartBeat rh { (emit w .start) with ctxDepth := 1 }).1 ∨
       v = (callHeartBeat rh { (emit w .start) with ctxDepth := 1 }).1) →
-      Inv v ∧ v.users = none ∧ v.ctxDepth = 1 := by
+      Inv v ∧ v.users = none ∧ v.ctxDepth = 1 ∧ TrExt w v := by
     intro v hv
     cases hv with
-    | inl e => rw [e]; exact ⟨i1.ctx_irrel 1, hu1, rfl⟩
-    | inr e => rw [e]; exact ⟨i1, hu1, by rw [r1.ctx]⟩
+    | inl e => rw [e]; exact ⟨i1.ctx_irrel 1, hu1, rfl, t1.trans (TrExt.of_eq rfl)⟩
+    | inr e => rw [e]; exact ⟨i1, hu1, by rw [r1.ctx], t1⟩
   generalize hv : (if (callHeartBeat rh { (emit w .start) with ctxDepth := 1 }).2 = true
       then recover (callHeartBeat rh { (emit w .start) with ctxDepth := 1 }).1
       else (callHeartBeat rh { (emit w .start) with ctxDepth := 1 }).1) = v
@@ -242,17 +258,21 @@ theorem startup_good (S : Scripts) (rh : HookFn) (hrh : HookOK rh) (w : W) (f : 
     rw [← hv]; split
     · exact Or.inl rfl
     · exact Or.inr rfl
-  obtain ⟨iv, uv, cv⟩ := g2 v hv'
+  obtain ⟨iv, uv, cv, tv⟩ := g2 v hv'
   split
   · rename_i hcons
     have hs : (slots v).headD none = none := by unfold slots; rw [uv]; rfl
     obtain ⟨i3, r3⟩ := initConsoleUser_cstep S rh hrh v hs iv
     have u3 := initConsoleUser_users S rh hrh v iv hs
     split
-    · exact ⟨i3.ctx_irrel 1, fun _ => u3, rfl⟩
-    · exact ⟨i3, fun _ => u3, by rw [r3.ctx]; exact cv⟩
+    · exact ⟨⟨i3.ctx_irrel 1, fun _ => u3, rfl⟩, (tv.trans r3.tr).trans (TrExt.of_eq rfl)⟩
+    · exact ⟨⟨i3, fun _ => u3, by rw [r3.ctx]; exact cv⟩, tv.trans r3.tr⟩
   · rename_i hnet
-    exact ⟨iv, fun hm => absurd hm hnet, cv⟩
+    exact ⟨⟨iv, fun hm => absurd hm hnet, cv⟩, tv⟩
+
+theorem run_gt (S : Scripts) (w0 : W) (h : List (List Action)) (f : Fresh w0) : GT w0 (run S w0 h) := by
+  have g0 := startup_good S _ (runHook_ok S hookFuel) w0 f
+  exact g0.trans (runCycles_good S _ (runHook_ok S hookFuel) h 1 _ g0.1)
 
 /-- **backend_total.**  Starting from the idle driver (no connection at all), for every script oracle `S` (what every
     command, process_input, logon, net_dead, heart_beat, call_out, reset hook does - succeed, raise, raise inside a
@@ -265,8 +285,7 @@ theorem startup_good (S : Scripts) (rh : HookFn) (hrh : HookOK rh) (w : W) (f : 
 theorem backend_total (S : Scripts) (w0 : W) (h : List (List Action)) (f : Fresh w0) :
     (run S w0 h).crashed = none ∧ (run S w0 h).inError = false ∧ (run S w0 h).inMeh = false ∧
     (run S w0 h).ctxDepth = 1 := by
-  have g : Good (run S w0 h) :=
-    runCycles_good S _ (runHook_ok S hookFuel) h 1 _ (startup_good S _ (runHook_ok S hookFuel) w0 f)
+  have g : Good (run S w0 h) := (run_gt S w0 h f).1
   exact ⟨g.inv.crashed, g.inv.inError, g.inv.inMeh, g.base⟩
 
 /-- the same after every cycle, spelled out: for every prefix of the history -/
@@ -280,8 +299,7 @@ theorem backend_total_prefix (S : Scripts) (w0 : W) (h : List (List Action)) (k 
 theorem freed_conn_never_used_run (S : Scripts) (w0 : W) (h : List (List Action)) (f : Fresh w0) (o : Oid) (id : Nat)
     (hi : (run S w0 h).inter o = some id) : (findConn (run S w0 h) id).isSome = true ∧
       useConn (run S w0 h) id = run S w0 h := by
-  have g : Good (run S w0 h) :=
-    runCycles_good S _ (runHook_ok S hookFuel) h 1 _ (startup_good S _ (runHook_ok S hookFuel) w0 f)
+  have g : Good (run S w0 h) := (run_gt S w0 h f).1
   exact ⟨g.inv.live o id hi, useConn_live _ id (g.inv.live o id hi)⟩
 
 end NV.C09
